@@ -5,6 +5,12 @@ import (
 	"strings"
 )
 
+// extraFns: per-property extractors register themselves here (one extras_<prop>.go file each).
+var extraFns []func(fset *token.FileSet, repo string, b *strings.Builder)
+
 // extras: tables extracted from packages other than defaults (added per property).
 func extras(fset *token.FileSet, repo string, b *strings.Builder) {
+	for _, f := range extraFns {
+		f(fset, repo, b)
+	}
 }
